@@ -19,3 +19,32 @@ pub(crate) fn geo_bits(t: &TopAstroDay) -> [u64; 3] {
 pub(crate) fn set_coords(t: &mut TopAstroDay, coords: Coordinates) {
     t.coords = coords;
 }
+
+// C13 — AstroDay::new evaluates the ephemeris at jd-1, jd, jd+1 (spy on Astro::new)
+pub static mut AN_ARGS: [u64; 3] = [0; 3];
+pub static mut AN_N: usize = 0;
+pub fn astro_new_spy(julian_day: f64) -> Astro {
+    unsafe {
+        if AN_N < 3 {
+            AN_ARGS[AN_N] = julian_day.to_bits();
+        }
+        AN_N += 1;
+    }
+    Astro { dra: 0., dec: 0., ra: 0., rsum: 1., sid_time: 0. }
+}
+#[cfg(kani)]
+#[kani::proof]
+#[kani::unwind(5)]
+#[kani::stub(Astro::new, astro_new_spy)]
+pub fn c13_astro_day_triple() {
+    let v: f64 = kani::any();
+    kani::assume(v >= 2.3e6 && v <= 2.6e6);
+    let jd = JulianDay { date: chrono::NaiveDate::from_yo_opt(2023, 100).unwrap(), gmt: crate::geo::coordinates::Gmt::try_from(0.).unwrap(), value: v };
+    kani::cover!(true, "VACUITY-GUARD reachable");
+    let ad = AstroDay::new(jd);
+    unsafe {
+        assert!(AN_N == 3, "C13 the day's ephemeris is a triple");
+        assert!(AN_ARGS[0] == (v - 1.).to_bits() && AN_ARGS[1] == v.to_bits() && AN_ARGS[2] == (v + 1.).to_bits(), "C13 the ephemeris triple is evaluated at the previous, the current and the next Julian Day");
+    }
+    assert!(ad.julian_day.value.to_bits() == v.to_bits(), "C13 AstroDay keeps its Julian Day");
+}
